@@ -82,6 +82,8 @@ def generate(seed, mode):
             ops.append({'op': 'drop', 'n': o.randrange(64), 'k': k})
         elif r < q_rate + 0.20:
             ops.append({'op': 'rebase_empty', 'n': o.randrange(64), 'k': k})
+        elif r < q_rate + 0.24:
+            ops.append({'op': 'reload', 'n': o.randrange(64), 'k': k})
         else:
             ops.append({'op': 'rebase', 'n': o.randrange(64),
                         'bases': [o.randrange(64) for _ in range(o.choice([0, 1, 1, 2, 2, 3]))],
@@ -164,7 +166,7 @@ def execute(program, ctx, mode):
         # while it has not been collected yet: either outcome is legitimate
         return None if bad_dead else True
 
-    def new_iface(bl, iat, itg, iiv):
+    def new_iface(bl, iat, itg, iiv, real_name=None):
         lbl = 'I%d' % counters['I']
         counters['I'] += 1
         d = {}
@@ -181,7 +183,7 @@ def execute(program, ctx, mode):
             ctx.probe('strict-skip-inconsistent-new')
             counters['I'] -= 1
             return None
-        I = InterfaceClass(lbl, real_bases, d, __module__='zisim.g')
+        I = InterfaceClass(real_name or lbl, real_bases, d, __module__='zisim.g')
         for t, v in itg.items():
             I.setTaggedValue(t, (lbl, t, v))
         if iiv:
@@ -676,6 +678,33 @@ def execute(program, ctx, mode):
                 ctx.fault('drop')
                 ctx.probe('dependent-dropped')
                 ctx.log(step, 'drop', l)
+        elif name == 'reload':
+            # "module reload done carefully": an interface is replaced by a new object with the SAME name and module.
+            # The old one is first detached from all its bases (so the two equal-named objects are never dependents
+            # of the same specification -- they would alias in the weak dependents map, a documented usage constraint),
+            # then every specification that had the old one as a base is re-based onto the new one, then the old one is dropped.
+            L = live()
+            cands = [l for l in L if kind[l] == 'I']
+            if not cands or strict_env:
+                continue
+            s = cands[op['n'] % len(cands)]
+            old_bases = list(bases_of[s])
+            deps = [d for d in L if s in bases_of[d]]
+            node[s].__bases__ = ()
+            bases_of[s] = []
+            iat = {n: ('meth' if isinstance(v, Method) else 'attr') for n, v in (attrs.get(s) or {}).items()}
+            itg = {t: v[2] for t, v in (tags.get(s) or {}).items()}
+            s2 = new_iface([b for b in old_bases if kind.get(b) == 'I'], iat, itg, invs.get(s) or [], real_name=node[s].__name__)
+            for d in deps:
+                nb = [s2 if b == s else b for b in bases_of[d]]
+                node[d].__bases__ = tuple(node[b] for b in nb)
+                bases_of[d] = nb
+            node[s] = None
+            keep[s] = None
+            ctx.probe('interface-reloaded')
+            if deps:
+                ctx.probe('interface-reloaded-with-dependents')
+            ctx.log(step, 'reload', s, s2, deps)
         elif name == 'rebase_empty':
             L = live()
             try:
